@@ -102,6 +102,10 @@ pub fn cases(thorough: bool) -> Vec<RuleCase> {
         ("par-none", vec![]),
         ("par-x-base", vec![at(x(1), "Base")]),
         ("par-self-mid-x-side", vec![at(slf(), "Mid"), at(x(1), "Side")]),
+        // a bound whose self type is a struct applied to Self
+        ("par-wself-top", vec![at(w(slf()), "Top")]),
+        // a one-trait cycle through the trait's own parameter
+        ("par-x-par-self", vec![at1(x(1), "Par", slf()), at(slf(), "Base")]),
     ];
     let structs: Vec<(&'static str, Vec<Atom>)> = vec![
         ("w-none", vec![]),
@@ -131,6 +135,9 @@ pub fn cases(thorough: bool) -> Vec<RuleCase> {
         ("A: Par<K1_0>".into(), vec![Hyp::Tr(at1(a(), "Par", k()))]),
         ("FromEnv(W<K1_0>)".into(), vec![Hyp::Ty(w(k()))]),
         ("K1_0: Mid; K1_0: Side".into(), vec![Hyp::Tr(at(k(), "Mid")), Hyp::Tr(at(k(), "Side"))]),
+        // hypotheses whose self type is a struct application (generic over the placeholder, and closed)
+        ("W<K1_0>: Top".into(), vec![Hyp::Tr(at(w(k()), "Top"))]),
+        ("W<A>: Top; K1_0: Side".into(), vec![Hyp::Tr(at(w(a()), "Top")), Hyp::Tr(at(k(), "Side"))]),
     ];
     let concl: Vec<Atom> = vec![
         at(k(), "Base"),
@@ -140,6 +147,8 @@ pub fn cases(thorough: bool) -> Vec<RuleCase> {
         at(w(k()), "Side"),
         at(w(k()), "Base"),
         at(a(), "Base"),
+        at1(a(), "Par", k()),
+        at(w(a()), "Base"),
     ];
     let mut out = vec![];
     for (hname, hier) in &hierarchies {
@@ -225,7 +234,7 @@ pub fn run_c06(rep: &Report) -> i32 {
         cases_n,
         tr,
         nt,
-        "every program from the product of 4 supertrait structures (flat, chain, diamond, cycle) x 3 where-clause variants of a trait with a parameter x 3 where-clause variants of a struct x a menu of impl subsets (all 64 in thorough); goals forall<T> { if (H) { G } } for 8 hypothesis sets (trait hypotheses, a hypothesis on a trait parameter, FromEnv of a struct type, two hypotheses) x 7 conclusions, and the same conclusions without hypotheses; both solvers; then a breadth-first search over all orders of 5-6 goals that interleave hypothesis-carrying and hypothesis-free versions of the same conclusion on one solver, to closure; non-trivial = goals REF decides",
+        "every program from the product of 4 supertrait structures (flat, chain, diamond, cycle) x 5 where-clause variants of a trait with a parameter (none, on the parameter, on Self and the parameter, on a struct applied to Self, a one-trait cycle `X: Par<Self>`) x 3 where-clause variants of a struct x a menu of impl subsets (all 64 in thorough); goals forall<T> { if (H) { G } } for 10 hypothesis sets (trait hypotheses on the placeholder, on a struct applied to it and on a closed struct type, a hypothesis on a trait parameter, FromEnv of a struct type, two hypotheses) x 9 conclusions, and the same conclusions without hypotheses; both solvers; then a breadth-first search over all orders of 5-6 goals that interleave hypothesis-carrying and hypothesis-free versions of the same conclusion on one solver, to closure; non-trivial = goals REF decides",
         rep.get("searches_cut_at_depth") == 0,
         &["REF closes the hypotheses under: a trait hypothesis implies the trait's where-clauses (recursively); FromEnv(S<..>) implies the struct's where-clauses; then decides the conclusion by least fixed point over the impls"],
     )
